@@ -195,7 +195,13 @@ theorem C16_facts :
     privateIpNets = ["127.0.0.0/8", "10.0.0.0/8", "172.16.0.0/12", "192.168.0.0/16"] ∧
     defaultTrustedIsPrivate = true ∧ emptyFallsBackToDefault = true ∧
     gatedRoutes .main = stmtGated .main ∧ gatedRoutes .proxy = stmtGated .proxy ∧
-    deniedStatus .main = 403 ∧ deniedStatus .proxy = 403 := by decide
+    deniedStatus .main = 403 ∧ deniedStatus .proxy = 403 ∧
+    -- the socket address and the forwarding headers are read in `GetRealUserIP` and nowhere else;
+    -- websocket clients (logging, throttling, geo lookup), the room API throttle and both gates call it
+    soleAddressSource = true ∧
+    realIPCallers = ["backend_server.go:allowStatsAccess", "backend_server.go:roomHandler",
+      "hub.go:getRealUserIP", "hub.go:serveWs",
+      "proxy/proxy_server.go:allowStatsAccess", "proxy/proxy_server.go:proxyHandler"] := by decide
 
 /-! ## 6. "On the list" means prefix match -/
 
